@@ -37,6 +37,12 @@ func run(r *vk.Run) {
 	r.Describe("forced part: for Bus, Value.Pull, Collection.Pull and PullID (lossy and backpressured, seed and updates-only) a cancel is injected while a sender is parked at bus.send.afterSnapshot / bus.send.beforeListener (each listener index), a subscriber at bus.listen.beforeRegister / *.sub.afterSnapshot, a stopper at bus.listener.stop, and while a send is blocked on a consumer that stopped receiving; stress part: 0-8 subscribers with mixed options, 0-3 writers, cancels at random instants, consumers that stop receiving and cancel later, pre-cancelled contexts, PullID whose item is removed. After each scenario: every channel closed, every writer returned, no library goroutine left (goroutine dump vs baseline) at the quiescent point; bus events reach every listener that was live for the whole send exactly once and in per-sender order. Distinct = scenario descriptor (forced) / (options multiset, cancel pattern) (stress).",
 		"a panic kills the worker process: every scenario runs behind r.Guard and the driver attributes the death to the guarded key",
 		"quiescence (all goroutines blocked in two identical dumps) decides closed / returned / leaked; no sleeps")
+	r.OnSpin = func(where string, busy []vk.G) {
+		// "every goroutine started for it terminates": one that is still running a minute after everything else went
+		// quiet never will
+		r.Violation("C10/spin/"+where, fmt.Sprintf("at %s the process did not become quiescent within the watchdog period because goroutines of the library keep running (spinning):\n%s", where, vk.DescribeGs(busy)), map[string]any{"where": where})
+		r.GiveUp()
+	}
 	busForced(r)
 	busStress(r)
 	resForced(r)
